@@ -195,3 +195,13 @@ Theorem C13_intersection_and_except_count : forall a b x,
   subseq (items_of (array_intersection_t a b)) (items_of a) /\ subseq (items_of (array_except_t a b)) (items_of a).
 Proof. exact intersection_except_count. Qed.
 Print Assumptions C13_intersection_and_except_count.
+
+(* M6 (second review): the fuel the model passes is never what decides an answer, on ARBITRARY inputs -- also for the loops
+   whose exhaustion is an ordinary value (None, Ok None, Ok buf, PErr, the input itself), about which `<> Err EFuel` says
+   nothing: any fuel above the one the model passes gives the same answer (FuelIndep.v) *)
+From JB Require FuelIndep.
+Theorem C13_fuel_is_never_decisive :
+  (forall St R bs (step : St -> Codec.je -> list N -> res (St + R)) fin k idx len joff voff s, (length bs < k)%nat -> Iter.arr_fold bs step fin k idx len joff voff s = Iter.arr_fold bs step fin (S (length bs)) idx len joff voff s) /\
+  (forall St R bs (step : St -> list N -> res (St + R)) fin k idx len joff koff s, (length bs < k)%nat -> Iter.keys_fold bs step fin k idx len joff koff s = Iter.keys_fold bs step fin (S (length bs)) idx len joff koff s).
+Proof. split; [exact (@FuelIndep.arr_fold_any_fuel)|exact (@FuelIndep.keys_fold_any_fuel)]. Qed.
+Print Assumptions C13_fuel_is_never_decisive.
